@@ -14,49 +14,61 @@ inductive Step where
 
 def isCont (b : Nat) : Bool := decide (0x80 ≤ b) && decide (b ≤ 0xBF)
 
-/-- decoding of the first item of a non-empty byte list. -/
+/-- rest of a 2-byte sequence; `none` = the input ends before that byte. -/
+def dec2 (b0 : Nat) (o1 : Option Nat) : Step :=
+  match o1 with
+  | none => .incomplete
+  | some b1 => if isCont b1 then .ok ((b0 - 0xC0) * 64 + (b1 - 0x80)) 2 else .invalid 1
+
+/-- rest of a 3-byte sequence whose second byte must lie in `lo..hi`. -/
+def dec3 (b0 lo hi : Nat) (o1 o2 : Option Nat) : Step :=
+  match o1 with
+  | none => .incomplete
+  | some b1 =>
+    if decide (lo ≤ b1) && decide (b1 ≤ hi) then
+      match o2 with
+      | none => .incomplete
+      | some b2 =>
+        if isCont b2 then .ok ((b0 - 0xE0) * 4096 + (b1 - 0x80) * 64 + (b2 - 0x80)) 3
+        else .invalid 2
+    else .invalid 1
+
+/-- rest of a 4-byte sequence whose second byte must lie in `lo..hi`. -/
+def dec4 (b0 lo hi : Nat) (o1 o2 o3 : Option Nat) : Step :=
+  match o1 with
+  | none => .incomplete
+  | some b1 =>
+    if decide (lo ≤ b1) && decide (b1 ≤ hi) then
+      match o2 with
+      | none => .incomplete
+      | some b2 =>
+        if isCont b2 then
+          match o3 with
+          | none => .incomplete
+          | some b3 =>
+            if isCont b3 then
+              .ok ((b0 - 0xF0) * 262144 + (b1 - 0x80) * 4096 + (b2 - 0x80) * 64 + (b3 - 0x80)) 4
+            else .invalid 3
+        else .invalid 2
+    else .invalid 1
+
+/-- decoding from the first byte and the (optional) next three bytes: `none` = the input
+    ends before that byte. The case distinction is Unicode Table 3-7 (what
+    `core::str::from_utf8` implements). -/
+def decode4 (b0 : Nat) (o1 o2 o3 : Option Nat) : Step :=
+  if b0 < 0x80 then .ok b0 1
+  else if b0 < 0xC2 then .invalid 1
+  else if b0 ≤ 0xDF then dec2 b0 o1
+  else if b0 ≤ 0xEF then
+    dec3 b0 (if b0 = 0xE0 then 0xA0 else 0x80) (if b0 = 0xED then 0x9F else 0xBF) o1 o2
+  else if b0 ≤ 0xF4 then
+    dec4 b0 (if b0 = 0xF0 then 0x90 else 0x80) (if b0 = 0xF4 then 0x8F else 0xBF) o1 o2 o3
+  else .invalid 1
+
+/-- decoding of the first item of a byte list (`.incomplete` on the empty list). -/
 def decodeFirst : List Nat → Step
   | [] => .incomplete
-  | b0 :: rest =>
-    if b0 < 0x80 then .ok b0 1
-    else if b0 < 0xC2 then .invalid 1
-    else if b0 ≤ 0xDF then
-      match rest with
-      | [] => .incomplete
-      | b1 :: _ => if isCont b1 then .ok ((b0 - 0xC0) * 64 + (b1 - 0x80)) 2 else .invalid 1
-    else if b0 ≤ 0xEF then
-      let lo := if b0 = 0xE0 then 0xA0 else 0x80
-      let hi := if b0 = 0xED then 0x9F else 0xBF
-      match rest with
-      | [] => .incomplete
-      | b1 :: r1 =>
-        if decide (lo ≤ b1) && decide (b1 ≤ hi) then
-          match r1 with
-          | [] => .incomplete
-          | b2 :: _ =>
-            if isCont b2 then .ok ((b0 - 0xE0) * 4096 + (b1 - 0x80) * 64 + (b2 - 0x80)) 3
-            else .invalid 2
-        else .invalid 1
-    else if b0 ≤ 0xF4 then
-      let lo := if b0 = 0xF0 then 0x90 else 0x80
-      let hi := if b0 = 0xF4 then 0x8F else 0xBF
-      match rest with
-      | [] => .incomplete
-      | b1 :: r1 =>
-        if decide (lo ≤ b1) && decide (b1 ≤ hi) then
-          match r1 with
-          | [] => .incomplete
-          | b2 :: r2 =>
-            if isCont b2 then
-              match r2 with
-              | [] => .incomplete
-              | b3 :: _ =>
-                if isCont b3 then
-                  .ok ((b0 - 0xF0) * 262144 + (b1 - 0x80) * 4096 + (b2 - 0x80) * 64 + (b3 - 0x80)) 4
-                else .invalid 3
-            else .invalid 2
-        else .invalid 1
-    else .invalid 1
+  | b0 :: rest => decode4 b0 rest[0]? rest[1]? rest[2]?
 
 /-- `char::len_utf8`. -/
 def lenUtf8 (cp : Nat) : Nat :=
